@@ -205,7 +205,8 @@ theorem U_pos : (0 : Int) < U := by decide
 theorem init_wf (k : Kind) (p : Nat → List Cmd) (sp : List Cmd) : WF (init k p sp) :=
   ⟨by simp [init, Sorted], by simp [init], by simp [init]⟩
 
-theorem pushUser_wf {s : Sim} (h : WF s) {t : Int} (ht : s.now ≤ t) (p a : Nat) : WF (pushUser s t p a) := by
+theorem pushUser_wf {s : Sim} (h : WF s) {t : Int} (ht : s.now ≤ t) (p a : Nat) (c : Option Nat := none) :
+    WF (pushUser s t p a c) := by
   refine ⟨?_, ?_, ?_⟩
   · exact insert_sorted h.sorted (fun x hx => by have := h.idlt x hx; simp; omega)
   · intro e he
@@ -229,7 +230,8 @@ theorem pushStep_wf {s : Sim} (h : WF s) : WF (pushStep s) := by
     · have := U_pos; simp [pushStep]; omega
     · exact h.future e he
 
-theorem schedAbs_wf {s s' : Sim} (h : WF s) {t : Int} {p a : Nat} (hs : schedAbs s t p a = .ok s') : WF s' := by
+theorem schedAbs_wf {s s' : Sim} (h : WF s) {t : Int} {p a : Nat} {c : Option Nat} (hs : schedAbs s t p a c = .ok s') :
+    WF s' := by
   unfold schedAbs at hs
   split at hs
   · simp at hs
@@ -237,9 +239,10 @@ theorem schedAbs_wf {s s' : Sim} (h : WF s) {t : Int} {p a : Nat} (hs : schedAbs
     · simp at hs
     · simp only [Except.ok.injEq] at hs
       subst hs
-      exact pushUser_wf h (by omega) p a
+      exact pushUser_wf h (by omega) p a c
 
-theorem schedRel_wf {s s' : Sim} (h : WF s) {d : Int} {p a : Nat} (hs : schedRel s d p a = .ok s') : WF s' := by
+theorem schedRel_wf {s s' : Sim} (h : WF s) {d : Int} {p a : Nat} {c : Option Nat} (hs : schedRel s d p a c = .ok s') :
+    WF s' := by
   unfold schedRel at hs
   split at hs
   · simp at hs
@@ -247,7 +250,7 @@ theorem schedRel_wf {s s' : Sim} (h : WF s) {d : Int} {p a : Nat} (hs : schedRel
     · simp at hs
     · simp only [Except.ok.injEq] at hs
       subst hs
-      exact pushUser_wf h (by omega) p a
+      exact pushUser_wf h (by omega) p a c
 
 theorem mapFlags_wf {s : Sim} (h : WF s) (g : Ev → Ev)
     (hg : ∀ e, (g e).time = e.time ∧ (g e).prio = e.prio ∧ (g e).id = e.id) :
@@ -263,8 +266,23 @@ theorem mapFlags_wf {s : Sim} (h : WF s) (g : Ev → Ev)
 theorem cancelTag_wf {s : Sim} (h : WF s) (k : Nat) : WF (cancelTag s k) :=
   mapFlags_wf h _ (fun e => by split <;> simp)
 
-theorem dropTag_wf {s : Sim} (h : WF s) (k : Nat) : WF (dropTag s k) :=
-  mapFlags_wf h _ (fun e => by split <;> simp)
+theorem dropFn_wf {s : Sim} (h : WF s) (k : Nat) : WF (dropFn s k) :=
+  let w := mapFlags_wf h (fun e => if !e.isStep && e.fn == k then { e with dead := true } else e) (fun e => by split <;> simp)
+  ⟨w.sorted, w.idlt, w.future⟩
+
+/-- `again`: nothing happens (the program no longer holds the callable, or the call is rejected), or one more event with
+    the held callable `k` is pushed -/
+theorem doCmd_again_cases (s : Sim) (k : Nat) (d : Int) (p : Nat) :
+    doCmd s (.again k d p) = s ∨
+    ∃ a, s.fns.lookup k = some a ∧ 0 ≤ d ∧ doCmd s (.again k d p) = pushUser s (s.now + d) p a (some k) := by
+  cases hl : s.fns.lookup k with
+  | none => left; simp [doCmd, again, hl]
+  | some a =>
+    by_cases h1 : d < 0
+    · left; simp [doCmd, again, hl, schedRel, h1]
+    · by_cases h2 : okUnit s.kind (s.now + d) = true
+      · right; exact ⟨a, rfl, by omega, by simp [doCmd, again, hl, schedRel, h1, h2]⟩
+      · left; simp [doCmd, again, hl, schedRel, h1, h2]
 
 theorem doCmd_wf {s : Sim} (h : WF s) (c : Cmd) : WF (doCmd s c) := by
   cases c with
@@ -278,8 +296,12 @@ theorem doCmd_wf {s : Sim} (h : WF s) (c : Cmd) : WF (doCmd s c) := by
     split
     · rename_i s' hs; exact schedRel_wf h hs
     · exact h
+  | again k d p =>
+    rcases doCmd_again_cases s k d p with he | ⟨a, _, hd, he⟩ <;> rw [he]
+    · exact h
+    · exact pushUser_wf h (by omega) p a _
   | cancel k => exact cancelTag_wf h k
-  | drop k => exact dropTag_wf h k
+  | drop k => exact dropFn_wf h k
   | halt => exact h
 
 theorem foldl_doCmd_wf {s : Sim} (h : WF s) (cs : List Cmd) : WF (cs.foldl doCmd s) := by
@@ -380,7 +402,8 @@ theorem ids_map_flags (l : List Ev) (g : Ev → Ev) (hg : ∀ e, (g e).id = e.id
 theorem init_acc (k : Kind) (p : Nat → List Cmd) (sp : List Cmd) : Acc (init k p sp) := by
   intro i; simp [init, ids, logIds]
 
-theorem pushUser_accH {h : List Nat} {s : Sim} (ha : AccH h s) (t : Int) (p a : Nat) : AccH h (pushUser s t p a) := by
+theorem pushUser_accH {h : List Nat} {s : Sim} (ha : AccH h s) (t : Int) (p a : Nat) (c : Option Nat := none) :
+    AccH h (pushUser s t p a c) := by
   intro i
   have := ha i
   simp only [pushUser, ids_insert_count]
@@ -420,10 +443,14 @@ theorem doCmd_accH {h : List Nat} {s : Sim} (ha : AccH h s) (c : Cmd) : AccH h (
     simp only [doCmd, cancelTag]
     rw [ids_map_flags _ _ (fun e => by split <;> rfl)]
     exact this
+  | again k d p =>
+    rcases doCmd_again_cases s k d p with he | ⟨a, _, _, he⟩ <;> rw [he]
+    · exact ha
+    · exact pushUser_accH ha _ _ _ _
   | drop k =>
     intro i
     have := ha i
-    simp only [doCmd, dropTag]
+    simp only [doCmd, dropFn]
     rw [ids_map_flags _ _ (fun e => by split <;> rfl)]
     exact this
   | halt => exact ha
@@ -535,8 +562,10 @@ theorem doCmd_frame (s : Sim) (c : Cmd) :
         · simp at hs
         · simp only [Except.ok.injEq] at hs; subst hs; simp [pushUser]
     · simp
+  | again k d p =>
+    rcases doCmd_again_cases s k d p with he | ⟨a, _, _, he⟩ <;> rw [he] <;> simp [pushUser]
   | cancel k => simp [doCmd, cancelTag]
-  | drop k => simp [doCmd, dropTag]
+  | drop k => simp [doCmd, dropFn]
   | halt => simp [doCmd]
 
 theorem foldl_doCmd_frame (s : Sim) (cs : List Cmd) :
@@ -866,7 +895,8 @@ theorem dead_of_pending_superset {i : Nat} {s s' : Sim} (h : Dead i s)
     exact Or.inl ⟨e', he', by rw [hi', hi], hc'⟩
   · exact Or.inr (hg i h)
 
-theorem pushUser_dead {i : Nat} {s : Sim} (h : Dead i s) (t : Int) (p a : Nat) : Dead i (pushUser s t p a) :=
+theorem pushUser_dead {i : Nat} {s : Sim} (h : Dead i s) (t : Int) (p a : Nat) (c : Option Nat := none) :
+    Dead i (pushUser s t p a c) :=
   dead_of_pending_superset h (fun e he hc => ⟨e, mem_insert.mpr (Or.inr he), rfl, hc⟩) (fun _ hj => hj)
 
 theorem pushStep_dead {i : Nat} {s : Sim} (h : Dead i s) : Dead i (pushStep s) :=
@@ -900,8 +930,15 @@ theorem doCmd_dead {i : Nat} {s : Sim} (h : Dead i s) (c : Cmd) : Dead i (doCmd 
         · simp at hs
         · simp only [Except.ok.injEq] at hs; subst hs; exact pushUser_dead h _ _ _
     · exact h
+  | again k d p =>
+    rcases doCmd_again_cases s k d p with he | ⟨a, _, _, he⟩ <;> rw [he]
+    · exact h
+    · exact pushUser_dead h _ _ _ _
   | cancel k => exact mapFlags_dead h _ (fun e => by split <;> simp)
-  | drop k => exact mapFlags_dead h _ (fun e => by split <;> simp)
+  | drop k =>
+    exact dead_of_pending_superset
+      (mapFlags_dead h (fun e => if !e.isStep && e.fn == k then { e with dead := true } else e) (fun e => by split <;> simp))
+      (fun e he hc => ⟨e, he, rfl, hc⟩) (fun _ hj => hj)
   | halt => exact h
 
 theorem foldl_doCmd_dead {i : Nat} {s : Sim} (h : Dead i s) (cs : List Cmd) : Dead i (cs.foldl doCmd s) := by
